@@ -156,6 +156,9 @@ impl Property for C02 {
         }
         v
     }
+    fn fuzz_sequences(&self) -> Vec<(&'static str, usize)> {
+        vec![("/ops", 48)]
+    }
     fn run(&self, case: &History) -> Outcome {
         let mut out = Outcome::default();
         let mut w = World::new(&case.cfg);
